@@ -53,6 +53,9 @@ impl Tier {
 
 #[derive(Clone, Debug)]
 pub struct RunCtx {
+    /// VERIF_SEED of the batch and the run's index in it (for enumerating sweeps)
+    pub base: u64,
+    pub index: u64,
     pub seed: u64,
     pub tier: Tier,
     /// plan elements disabled by the minimiser
@@ -63,11 +66,19 @@ pub struct RunCtx {
 impl RunCtx {
     pub fn new(seed: u64, tier: Tier) -> Self {
         RunCtx {
+            base: 0,
+            index: 0,
             seed,
             tier,
             disabled: vec![],
             verbose: false,
         }
+    }
+    pub fn at(base: u64, index: u64, seed: u64, tier: Tier) -> Self {
+        let mut c = RunCtx::new(seed, tier);
+        c.base = base;
+        c.index = index;
+        c
     }
     pub fn enabled(&self, element: usize) -> bool {
         !self.disabled.contains(&element)
